@@ -1,7 +1,7 @@
 from props import P
 
 CFG = P(
-        harness=["harness/C03.cc"], srcs=[],
+        harness=["harness/C03.cc", "harness/C03_optypes.cc", "harness/C03_bswap.cc"], harness_deps=["harness/C03_common.hh"], srcs=[],
         rule="a case is one (wrapper type, operator, operand, stored value) tuple or one (helper function, input) pair; all tuples are distinct by construction (odometer enumeration, no duplicates); a case is non-trivial when the native operator's result is defined and was compared (pairs whose native result is undefined - signed overflow, division by zero, INT_MIN/-1 - are executed-not-compared and not counted)",
         bounds={
             "quick": "16-bit wrappers: all 65536 values x 17 operators x operand set; 32-bit: L9^4+walking+all-distinct; 64-bit: L5^8+walking+all-distinct for ctor/=/store, 755-value lane set for binary operators; float/double lane sets bit-exact; bswap16 all, bswap24/24s/ext24 all 2^24, bswap32/32f lane set, bswap48/48s/ext48 L5^6, bswap64/64f L5^8, sign_extend all 8/16-bit sources",
